@@ -177,6 +177,9 @@ ACCESS_ENUMERATORS = {"CAT_VAR_ACCESS_READ_WRITE": "RW", "CAT_VAR_ACCESS_READ_ON
 #                                  text := render FMT v; c_snprintf buf pos n text; = length text
 #        strlen(S)                 c_strlen S   (guard: c_has_nul S)
 #        strcpy(a, "literal")      a local char array becomes that format (it must fit)
+#        snprintf(a, n, FMT, v)    a local char array of >= n bytes then holds the DEFINED bytes
+#                                  c_snprintf_obj n text (first n - 1 characters and a terminator)
+#        sizeof(a)                 the size of a local char array
 LIBRARY_CALLS = ("memcpy", "snprintf", "strlen", "strcpy")
 
 # ---- returned status: return 0 -> FRet buf pos true     return -1 -> FRet buf pos false ----
@@ -453,6 +456,10 @@ class FormatTranslator(StatementTranslator):
                 if d.get("kind") == "DeclRefExpr" else None
             if b is not None and b.kind == "cobj":
                 return "var", b.name
+        if n.get("kind") == "DeclRefExpr":                      # a local array (decayed)
+            b = env.vars.get(n.get("referencedDecl", {}).get("id"))
+            if b is not None and b.kind == "carr":
+                return "var", b.name
         if n.get("kind") == "UnaryOperator" and n.get("opcode") == "&":
             d = strip(n["inner"][0])
             b = env.vars.get(d.get("referencedDecl", {}).get("id")) \
@@ -602,7 +609,7 @@ class FormatTranslator(StatementTranslator):
 
     def is_bool_type(self, node):
         t = node.get("type", {})
-        return t.get("desugaredQualType", t.get("qualType")) == "_Bool"
+        return t.get("desugaredQualType", t.get("qualType")) in ("_Bool", "bool")   # clang's spelling
 
     def lift(self, node, env, G):
         node = strip(node)
@@ -644,6 +651,13 @@ class FormatTranslator(StatementTranslator):
                     return Val("int", ctype=ty, lo=0, hi=ty.hi, tN="(c_size_sub %s %s)" % (x, y))
                 refuse(node, "'%s' on a size_t" % op)
             return arith(node, op, a, b, ctype_of(node), G)
+        if kind == "UnaryExprOrTypeTraitExpr" and node.get("name") == "sizeof":
+            e = strip(node["inner"][0]) if node.get("inner") else {}
+            b = env.vars.get(e.get("referencedDecl", {}).get("id")) \
+                if e.get("kind") == "DeclRefExpr" else None
+            if b is None or not hasattr(b, "size"):
+                refuse(node, "sizeof of something that is not a local char array")
+            return int_const(b.size, ctype_of(node, "sizeof"))
         if kind == "ConditionalOperator":
             c, x, y = node["inner"]
             ct = self.cond(c, env, G)
@@ -849,7 +863,7 @@ class FormatTranslator(StatementTranslator):
             b = env.vars.get(d.get("referencedDecl", {}).get("id")) \
                 if d.get("kind") == "DeclRefExpr" else None
             lit = strip_casts(a[1]) if len(a) == 2 else {}
-            if b is None or b.kind != "fmt" or not hasattr(b, "size") \
+            if b is None or b.kind not in ("fmt", "carr") or not hasattr(b, "size") \
                     or lit.get("kind") != "StringLiteral":
                 refuse(s, "strcpy that is not strcpy(<local char array>, \"literal\")")
             bs = string_literal_bytes(lit)
@@ -909,10 +923,17 @@ class FormatTranslator(StatementTranslator):
         a, G = call["inner"][1:], []
         if b is None or b.kind != "Z" or b.ctype != T_INT:
             refuse(s, "the result of snprintf is not assigned to an int local")
-        if len(a) != 4 or self.callee_name(strip_casts(a[0])) != CURRENT_BUFFER:
-            refuse(s, "snprintf that is not snprintf(%s(self, fsm), n, FMT, one value)"
-                   % CURRENT_BUFFER)
-        self.machine_call_args(strip_casts(a[0]), 2)
+        dst = strip_casts(a[0]) if a else {}
+        arr = env.vars.get(dst.get("referencedDecl", {}).get("id")) \
+            if dst.get("kind") == "DeclRefExpr" else None
+        if arr is not None and (arr.kind not in ("fmt", "carr") or not hasattr(arr, "size")):
+            arr = None
+        if len(a) != 4 or (arr is None and self.callee_name(dst) != CURRENT_BUFFER):
+            refuse(s, "snprintf that is not snprintf(%s(self, fsm) or a local char array, n, FMT, "
+                      "one value)" % CURRENT_BUFFER)
+        if arr is not None:
+            return self.snprintf_local(s, a, arr, dst["referencedDecl"]["id"], b, did, env, ctx, k)
+        self.machine_call_args(dst, 2)
         n = self.nat_of(a[1], self.lift(a[1], env, G))
         fmt = self.fmt_arg(a[2], env)
         val = self.u32_arg(a[3], self.lift(a[3], env, G), "the value printed by snprintf")
@@ -925,6 +946,28 @@ class FormatTranslator(StatementTranslator):
             return let + k(env3)
         out = "let %s := render %s %s in\n" % (text, fmt, val) + self.state_store(
             ctx, "c_snprintf %s %s %s %s" % (env.buf, env.pos, n, text), env, after)
+        return self.guarded(G, out, ctx)
+
+    def snprintf_local(self, s, a, arr, arr_id, b, did, env, ctx, k):
+        """written = snprintf(<local char array>, n, FMT, val), n a constant <= its size: the array
+        then holds c_snprintf_obj n text, the DEFINED bytes (reading behind them is refused by the
+        guards of whoever reads: they are indeterminate)."""
+        G = []
+        nv = self.lift(a[1], env, G)
+        if nv.kind != "int" or nv.point is None or not 0 <= nv.point <= arr.size:
+            refuse(s, "snprintf into a local array of %d bytes with a size that is not a constant "
+                      "within it" % arr.size)
+        fmt = self.fmt_arg(a[2], env)
+        val = self.u32_arg(a[3], self.lift(a[3], env, G), "the value printed by snprintf")
+        text, obj = self.fresh("text"), self.fresh(arr.base)
+        self.impure.update((text, obj))
+        nb = Binding("carr", obj, base=arr.base)
+        nb.size = arr.size
+        env2 = env.bind(arr_id, nb)
+        v = Val("int", ctype=T_INT, lo=0, hi=INT_MAX, tZ="(Z.of_nat (length %s))" % text)
+        let, env3 = self.assign_local(s, b, did, v, env2)
+        out = "let %s := render %s %s in\nlet %s := c_snprintf_obj %d%%nat %s in\n%s%s" % (
+            text, fmt, val, obj, nv.point, text, let, k(env3))
         return self.guarded(G, out, ctx)
 
     # ---- declarations ---------------------------------------------------------------------------
@@ -1433,6 +1476,10 @@ def run_format_tie(repo_src_dir, workdir, coq_dir, template_path=None):
     fns = list(report)
     translated = [f for f in fns if report[f]["status"] == "translated"]
     in_project = lib_is_in_project(coq_dir)
+    if in_project:                                    # usable? (a stale .vo is not: private copy)
+        probe = os.path.join(workdir, "FormatTieLibProbe.v")
+        write(probe, "From CatV Require Import FormatTieLib.\n")
+        in_project = coqc(probe, coq_dir, workdir)[0]
     fix = use_project_lib if in_project else (lambda t: t)
     res = {
         "source": os.path.join(repo_src_dir, "cat.c"),
